@@ -250,7 +250,7 @@ sys.exit(bad)
 
 
 def run(tier='quick', seed=0):
-    R = report.Run('C15', tier, seed, category='proof')
+    R = report.Run('C15', tier, seed, category='other')
     R.functions = ['XMLElement.__setattr__', 'XMLElement.__getattr__', 'XMLElement._convert_attribute_to_child', 'XMLElement.find_child',
                    'XMLElement._get_attributes_error_message', 'util.core.cap_first']
     R.assumptions += ['the explicit API (add_child, replace_child, remove, _set_attributes) is replaced by recording stubs: the obligation is the dispatch, the callees are C04/C06',
